@@ -93,6 +93,7 @@ def run(env, rep):
         "(interval under caller-established entry states), so the recursion depth is bounded; R2: no allocation in the decoder "
         "is sized by a peer-declared count: sizes are constants or a <= 16-bit length whose bytes must follow (read_exact into the "
         "same buffer); R3: every decoder loop consumes input per iteration (idiom L2) or is bounded by held data; R4: the fixed-size arrays declared in the frames of the recursive functions, times the depth limit, stay under a quarter of a 2 MiB stack.  "
+        "R4: no panic-capable site (index, arithmetic overflow, unwrap, allocation size) in the functions reachable from deserialize is left undischarged (C03 R1 with the decoder as entry).  "
         "Not decided: the stack size in bytes (a code-generation fact).")
     rep.assumptions = ["stack frames of the five decoder functions are of ordinary size (depth bound 64 x 5 frames)"]
     de = body_by_pretty(prog, "deserialization::deserialize")
@@ -260,3 +261,12 @@ def run(env, rep):
     # ---- R3
     nl = loops.loop_progress(env, rep, "C14.R3", [b for b in bodies if b.kind != "closure"])
     rep.floor("C14.R3", "loops in the AMF0 decoder", nl, 3)
+    # ---- R4: the decoder cannot panic (the statement says so in as many words): C03 R1 with deserialize as the only entry
+    from ..framework import wants
+    if wants(rep, "C14.R4"):
+        de = body_by_pretty(prog, "deserialization::deserialize")
+        if de is None:
+            rep.anchor_missing("C14.R4", "deserialization::deserialize")
+        else:
+            _b, ns = panic_sites(env, rep, "C14.R4", [de.key], "AMF0 decoder")
+            rep.floor("C14.R4", "panic-capable sites in the AMF0 decoder", ns, 3)
